@@ -33,7 +33,14 @@ def schedules(seed: int, cfg: int, k: int) -> List[Dict[str, Any]]:
 def build(seed: int, pid: str, ncfg: int) -> Tuple[Dict[str, Any], List[Dict[str, Any]]]:
     rs = Stream(seed, "workload", pid)
     opts = OPTS[pid]
-    if pid in ("C01", "C02") and rs.chance(opts.get("p_shapes", 0.1 if pid == "C02" else 0.05)):
+    if pid in ("C01", "C02") and rs.chance(opts.get("p_shapes", 0.14 if pid == "C02" else 0.08)):
+        if rs.sub("zoo").chance(0.45):
+            # the less common entities (elbows, sketch-based shapes and stacks, shells, connectors, wedges, ...)
+            from . import zoo
+
+            progs = [zoo.gen_zoo_program(Stream(seed, "zoo", pid), h64(seed, "cfg", c) % (1 << 31), P.DICT_PATH, P.VTK_PATH) for c in range(ncfg)]
+            if not progs[0]["meta"]["category"].startswith("construction-failed"):
+                return {"meta": progs[0]["meta"], "points": {}, "blocks": [], "chops": progs[0]["ops"]}, progs
         progs = [P.gen_shape_program(Stream(seed, "shape", pid), h64(seed, "cfg", c) % (1 << 31)) for c in range(ncfg)]
         return {"meta": progs[0]["meta"], "points": {}, "blocks": [], "chops": progs[0]["ops"]}, progs
     if pid == "C01" and rs.chance(0.1):
@@ -159,6 +166,14 @@ def evaluate(pid: str, program: Dict[str, Any], scheds: List[Dict[str, Any]], pr
                 stats["shape_construction_failed"] = stats.get("shape_construction_failed", 0) + 1
                 continue
             asm, names = P.assembly_from_snapshot(res.snapshot)
+            if any(len(set(b.corners)) < 8 for b in asm.blocks):
+                # an operation with coincident corners (a connector that picked its faces differently under this
+                # schedule): not a hexahedron, not a propagation verdict
+                runs.append({"sched": sc, "outcome": "degenerate-operation", "sig": digest("degenerate-operation"), "log": res.log_digest, "copy_calls": 0,
+                             "decisions": 0, "fam_counts": None, "consulted": {}, "msg": res.exc_msg})
+                stats["shape_construction_failed"] = stats.get("shape_construction_failed", 0) + 1
+                asm = names = None
+                continue
             verdict = models.judge_families(asm)
         parsed = None
         vs: List[P.Violation] = []
@@ -267,6 +282,9 @@ def evaluate(pid: str, program: Dict[str, Any], scheds: List[Dict[str, Any]], pr
         return {"violations": viols, "runs": runs, "stats": stats, "klass": "construction-failed", "n_blocks": 0, "families": 0, "multi_source": 0}
     if shapes:
         stats["shape_programs"] = stats.get("shape_programs", 0) + 1
+        kind_ = str(program["meta"]["shapes"])
+        if kind_.startswith("zoo:"):
+            stats["entity_" + kind_] = stats.get("entity_" + kind_, 0) + 1
     return {"violations": viols, "runs": runs, "stats": stats, "klass": ("shape:" if shapes else "") + verdict.klass, "n_blocks": len(names),
             "families": verdict.n_families, "multi_source": verdict.multi_source}
 
@@ -336,6 +354,8 @@ def task(seed: int, arg: Dict[str, Any]) -> Dict[str, Any]:
             out["violations"].append(v)
         # across configurations: same outcome class, same count for every block direction
         r0 = ev["runs"][0]
+        if ev["klass"] == "construction-failed" or any(r["outcome"] == "degenerate-operation" for r in ev["runs"]):
+            continue
         oc = "ok" if r0["outcome"] == "ok" else ("livelock" if r0["outcome"] == "livelock" else "error")
         if base_class is None:
             base_class, base_counts, base_prog, base_sched = oc, r0["fam_counts"], program, scheds[0]
@@ -395,6 +415,8 @@ def _prog_candidates(program):
     for i, op in enumerate(program["ops"]):
         if op["op"] == "chop":
             groups.setdefault((op["target"], op["axis"]), []).append(i)
+        elif op["op"] == "sub_chop":
+            groups.setdefault((op["target"], op["index"], op["axis"]), []).append(i)
     # drop all chops of one block direction (sections of a multi-grading go together)
     for key, idxs in groups.items():
         p = dict(program)
@@ -409,7 +431,7 @@ def _prog_candidates(program):
                 total = None
                 break
             total += c
-        if total is None:
+        if total is None or len(key) == 3:
             continue
         simple = {"op": "chop", "target": key[0], "axis": key[1], "args": {"count": total}}
         if len(idxs) == 1 and program["ops"][idxs[0]]["args"] == simple["args"]:
